@@ -15,6 +15,7 @@ import (
 	"fmt"
 	"net"
 	"os"
+	"strings"
 	"sync"
 	"time"
 
@@ -80,6 +81,12 @@ type Scenario struct {
 	MaxPending    int    `json:"max_pending,omitempty"`
 	CustomPayload bool   `json:"custom_payload,omitempty"`
 	KeyLabel      string `json:"key_label,omitempty"`
+	// CrashAgg > 0: once the aggregator has produced this many blocks its process dies: CrashOps durable writes
+	// later its datastore stops taking writes (nothing after that point reaches the disk; what was written
+	// stays), the process is torn down and started again on what is on disk. The datastore is shared by the
+	// block store, the sequencer's queue, the reaper and the P2P sync stores, as in a real node.
+	CrashAgg int `json:"crash_agg,omitempty"`
+	CrashOps int `json:"crash_ops,omitempty"`
 }
 
 // Tunables (real time).
@@ -139,6 +146,10 @@ type Result struct {
 	StopLivelock string
 	// Injected lists every transaction handed to the aggregator's mempool, in order.
 	Injected [][]byte
+	// AggCrashed: the aggregator's process died and was started again (CrashAgg); CrashStart is set when it
+	// could not be started on what the crash left on disk.
+	AggCrashed bool
+	CrashStart string
 }
 
 func (p *Proc) start(sgn signer.Signer, mo block.ManagerOptions) error {
@@ -271,6 +282,11 @@ func Run(sc Scenario, dir string) *Result {
 		return &Proc{Name: name, Cfg: cfg, KV: dssync.MutexWrap(ds.NewMapDatastore()), Exec: world.NewExecDbl("pw"), DA: da, NK: nk, Gen: gen}
 	}
 	a, b := mk("agg", true), mk("full", false)
+	if sc.CrashAgg > 0 {
+		cds := world.NewCrashDS()
+		cds.SetNoPanic(true)
+		a.KV = cds
+	}
 	res.A, res.B = a, b
 	if a.NK == nil || b.NK == nil {
 		res.Inconclusive = "node key generation failed"
@@ -384,6 +400,59 @@ func Run(sc Scenario, dir string) *Result {
 	if sc.JoinAfter == 0 && !startB() {
 		return res
 	}
+	// after a crash the aggregator is started on what is on disk; a start that fails for another reason than a
+	// listening port still being closed is what the crash left behind
+	startAfterCrash := func() string {
+		var err error
+		for try := 0; try < 40; try++ {
+			if err = a.start(sgn, mo); err == nil {
+				return ""
+			}
+			if !strings.Contains(err.Error(), "address already in use") && !strings.Contains(err.Error(), "bind:") && try >= 2 {
+				break
+			}
+			time.Sleep(100 * time.Millisecond)
+		}
+		return fmt.Sprintf("the aggregator does not start on what its crash left on disk: %v", err)
+	}
+	// a crashed aggregator whose Run ends by itself is started again, as a process supervisor would; a streak
+	// of such exits without any progress that lasts as long as a stall is a stall
+	var aStreakStart time.Time
+	aStreakHeight := uint64(0)
+	aggGoneSup := func() bool {
+		ex, err := a.exited()
+		if !ex {
+			return false
+		}
+		if !res.AggCrashed {
+			return true
+		}
+		<-a.done
+		a.cancel()
+		a.cancel = nil
+		if len(a.RunErr) < 12 {
+			a.RunErr = append(a.RunErr, fmt.Sprintf("%v", err))
+		}
+		if h := a.Height(); aStreakStart.IsZero() || h != aStreakHeight {
+			aStreakStart, aStreakHeight = time.Now(), h
+		}
+		if time.Since(aStreakStart) > StallWindow+StallConfirm {
+			res.CrashStart = fmt.Sprintf("after its crash the aggregator's Run ends by itself every time it is started (%d times, height stays %d): %v", len(a.RunErr), a.Height(), a.RunErr)
+			return true
+		}
+		if len(a.RunErr) >= 3 {
+			// nothing but the one crash ever went wrong in this run: a node that halts itself again and again is
+			// not producing blocks, however often a supervisor starts it
+			res.CrashStart = fmt.Sprintf("after its crash (and nothing else going wrong) the aggregator halts itself again and again: its Run ended by itself %d times in a row, each time after at most a block or two (height now %d): %v", len(a.RunErr), a.Height(), a.RunErr)
+			return true
+		}
+		time.Sleep(500 * time.Millisecond)
+		if msg := startAfterCrash(); msg != "" {
+			res.CrashStart = msg
+			return true
+		}
+		return false
+	}
 	// phase 1: the aggregator produces (transactions are injected at the scripted points)
 	aggRestarted := false
 	aggHeightAtRestart := uint64(0)
@@ -410,13 +479,41 @@ func Run(sc Scenario, dir string) *Result {
 			}
 			res.Labels = append(res.Labels, "agg-restarted")
 		}
+		if sc.CrashAgg > 0 && !res.AggCrashed && produced() >= sc.CrashAgg {
+			res.AggCrashed = true
+			res.Labels = append(res.Labels, "agg-crashed")
+			raw := a.KV.(*world.CrashDS)
+			raw.ArmCrashAfter(sc.CrashOps)
+			for t0 := time.Now(); !raw.Dead() && time.Since(t0) < 20*time.Second; {
+				time.Sleep(2 * time.Millisecond)
+			}
+			if !raw.Dead() {
+				raw.Kill() // an idle node performs no writes: it dies where it stands
+			}
+			if !a.stop() {
+				res.Inconclusive = "the aggregator's process could not be torn down within the stop window after its datastore died"
+				res.Labels = append(res.Labels, "aggregator-stop-slow")
+				return true
+			}
+			img := world.FromImage(raw.Image())
+			img.SetNoPanic(true)
+			a.KV = img
+			if msg := startAfterCrash(); msg != "" {
+				res.CrashStart = msg
+				return true
+			}
+		}
 		if !bStarted && produced() >= sc.JoinAfter {
 			if !startB() {
 				return true
 			}
 		}
 		return produced() >= sc.Blocks && nextStep == len(sc.Steps) && a.Exec.MempoolLen() == 0
-	}, func() uint64 { return uint64(produced()) }, aggGone)
+	}, func() uint64 { return uint64(produced()) }, aggGoneSup)
+	if res.CrashStart != "" {
+		res.TargetA = a.Height()
+		return res
+	}
 	if res.Inconclusive != "" {
 		return res
 	}
@@ -463,9 +560,19 @@ func Run(sc Scenario, dir string) *Result {
 		}
 		return false
 	}
+	bothGone := func() bool {
+		if res.AggCrashed && aggGoneSup() {
+			return true
+		}
+		return bGone()
+	}
 	// phase 2: optional clean restart of the full node once it has applied RestartFull blocks
 	if sc.RestartFull > 0 {
-		ok, stalled := waitProgress(func() bool { return applied() >= sc.RestartFull }, func() uint64 { return uint64(applied()) }, bGone)
+		ok, stalled := waitProgress(func() bool { return applied() >= sc.RestartFull }, func() uint64 { return uint64(applied()) }, bothGone)
+		if res.CrashStart != "" {
+			res.TargetA = a.Height()
+			return res
+		}
 		if !ok && gaveUp {
 			res.TargetA = a.Height()
 			res.Stall = fmt.Sprintf("the full node's Run ended by itself %d times (height %d, aggregator at %d): %v", len(b.RunErr), b.Height(), res.TargetA, b.RunErr)
@@ -493,9 +600,12 @@ func Run(sc Scenario, dir string) *Result {
 	}
 	// phase 3: the full node has to reach what the aggregator had produced at this moment
 	res.TargetA = a.Height()
-	ok, stalled = waitProgress(func() bool { return b.Height() >= res.TargetA }, func() uint64 { return b.Height() }, bGone)
+	ok, stalled = waitProgress(func() bool { return b.Height() >= res.TargetA }, func() uint64 { return b.Height() }, bothGone)
+	if res.CrashStart != "" {
+		return res
+	}
 	if stalled {
-		res.Stall = fmt.Sprintf("the full node made no progress for %s at height %d while the aggregator (height >= %d) is reachable via %s", StallWindow+StallConfirm, b.Height(), res.TargetA, sc.Mode)
+		res.Stall = fmt.Sprintf("the full node made no progress for %s at height %d while the aggregator (height >= %d) is reachable via %s; %s", StallWindow+StallConfirm, b.Height(), res.TargetA, sc.Mode, res.Diagnose())
 		return res
 	}
 	if !ok && gaveUp {
@@ -507,7 +617,7 @@ func Run(sc Scenario, dir string) *Result {
 	}
 	// a cleanly restarted aggregator must again report as DA-included what it had produced before the restart
 	// (its submissions are accepted; the inclusion marks were saved at shutdown)
-	if res.TargetA >= first && a.Node != nil {
+	if res.TargetA >= first && a.Node != nil && !res.AggCrashed { // (after a crash: known finding of C07, judged there)
 		inc := func() uint64 { return a.Node.VerifBlockManager().GetDAIncludedHeight() }
 		want := res.TargetA
 		_, stalled := waitProgress(func() bool { return inc() >= want }, inc, aggGone)
